@@ -371,7 +371,7 @@ class ComposedNode(ConfigNode):
         ret = {}
         if not hasattr(self, '_delete'): # happens when unpickling! children are being populated before attributes are set, but its ok since we assume pickled objects are ok anyway, so no need to fix things
             return ret
-        ret['implicit_delete'] = notnone_or(self._delete, self._default_delete or self._implicit_delete)
+        ret['implicit_delete'] = notnone_or(self._delete, notnone_or(self._implicit_delete, self._default_delete or None))
         ret['implicit_allow_new'] = notnone_or(self._allow_new, self._implicit_allow_new)
         if child is None or getattr(child, '_implicit_safe') is not False: # do not set "implicit_safe" arg if the child exists and already has it set to False (note: I think it's not strictly necessary to handle it here since other checks would still prevent changes)
             ret['implicit_safe'] = notnone_or(self._safe, self._implicit_safe)
@@ -380,26 +380,21 @@ class ComposedNode(ConfigNode):
     def _propagate_implicit_values(self):
         if not hasattr(self, '_delete'): # happens when unpickling! children are being populated before attributes are set, but its ok since we assume pickled objects are ok anyway, so no need to fix things
             return
-        if self._implicit_delete is None and self._implicit_allow_new is None and self._implicit_safe is None:
+        expected = self._get_child_kwargs()
+        if not expected:
             return
-        if self._delete is not None and self._allow_new is not None and self._safe is not None:
-            return
-
         for child in self._children.values():
             fix = False
-            if self._delete is None:
-                if child._implicit_delete != self._implicit_delete:
-                    child._implicit_delete = self._implicit_delete
+            if child._implicit_delete != expected['implicit_delete']:
+                child._implicit_delete = expected['implicit_delete']
+                fix = True
+            if child._implicit_allow_new != expected['implicit_allow_new']:
+                child._implicit_allow_new = expected['implicit_allow_new']
+                fix = True
+            if child._implicit_safe != expected['implicit_safe']:
+                if child._implicit_safe is not False:
+                    child._implicit_safe = expected['implicit_safe']
                     fix = True
-            if self._allow_new is None:
-                if child._implicit_allow_new != self._implicit_allow_new:
-                    child._implicit_allow_new = self._implicit_allow_new
-                    fix = True
-            if self._safe is None:
-                if child._implicit_safe != self._implicit_safe:
-                    if child._implicit_safe is not False:
-                        child._implicit_safe = self._implicit_safe
-                        fix = True
 
             if fix:
                 child._propagate_implicit_values()
